@@ -4,6 +4,14 @@ import json, sys
 props=[json.loads(l)['id'] for l in open('/verif/properties.jsonl')]
 TECH="bounded symbolic execution of the real go/ssa code; every branch, panic guard and assertion decided by SMT (z3, cross-checked with z3 5.1 and cvc5); counterexamples replayed natively"
 CHECKS={
+ "C12": dict(
+   text="Bounded model checking by symbolic execution, inductive in the history: the pre-state is ANY valid tracker state over a small universe (nick and channel slots, membership relation, every attribute, mode flag and privilege a solver variable) built directly in the heap as the real two-way maps; one real Tracker method call with symbolic arguments (go/ssa of state/tracker.go, nick.go, channel.go) is compared with a ~150-line relational model: equal return value, equal answer to every query (GetNick/GetChannel/IsOn/Me for every name of the universe plus the arguments), representation invariant kept. Map iteration inside delChannel/delNick/Wipe/ReNick is explored in every order. NewTracker is the base case, so histories of any length are covered by induction over the invariant.",
+   ref="DESIGN.md §4 C12",
+   note="Bounds: see evidence.bounds (quick: 3 nick slots x 1 channel, names 1 symbolic byte; ChannelModes 1 byte over all values, '+'+2 bytes over {+,-,i,k,l,o,v,?} with <= 2 args; thorough: 3 x 2, longer mode strings). Mode strings where an argument consumption left open by the property is followed by another argument-taking mode are excluded. strconv.Atoi is an exact model. String() is not compared."),
+ "C14": dict(
+   text="Bounded model checking by symbolic execution on C12's arbitrary pre-states: after one call of each of the 16 Tracker methods (1) the returned value and the tracker are heap-disjoint on the executor's object graph (no map, *NickMode, *ChanMode, *ChanPrivs or other mutable object reachable from both), which gives both directions of 'copies'; (2) a ghost-mutex monitor checks on every path that the call is at most one critical section of the tracker's mutex, that every map access and every store into tracker-owned objects happens with it held in the right mode, and that it is released.",
+   ref="DESIGN.md §4 C14",
+   note="The inference from (2) to linearizability / race freedom is the textbook mutual-exclusion argument and is not solver-checked; no concurrent history is executed. 'monitor:' violations are reported on the executor's evidence (not observable in a single-threaded native run); heap sharing and the acquisition count are replayed natively (reflect-based reachability, counting-mutex overlay). Bounds as C12."),
  "C04": dict(
    text="Bounded model checking by symbolic execution, inductive in the history: the pre-state is ANY well-formed handler set (2 symbolic names, 0..N handlers each) built directly in the heap, then one real hSet.add / hNode.Remove / getHandlers step with symbolic names in any letter case is executed from go/ssa and compared with a sequence model (invariant preserved, contents change exactly as the model says, case-insensitive names), so arbitrary histories are covered by induction on the invariant. The real hSet.dispatch / Conn.dispatch then runs on such a set with handlers that remove themselves, remove a sibling or register new handlers from inside: each registered handler exactly once, no deadlock, lock free afterwards. Racing callers: a ghost-lock monitor checks on every path that each operation is ONE critical section of the set's lock and that every map access / node store happens inside it.",
    ref="DESIGN.md §4 C04",
